@@ -56,6 +56,20 @@ class RunCtx:
         return self.tier == "thorough"
 
 
+def _exception_owner(e):
+    """Innermost traceback frame that belongs to dagrt (code under test, incl.
+    generated code) or to the harness; third-party frames are skipped."""
+    repo = os.path.realpath(os.environ.get("VERIF_REPO", "/repo")) + os.sep
+    home = os.path.realpath(os.environ.get("VERIF_HOME", "/verif")) + os.sep
+    for fr in reversed(traceback.extract_tb(e.__traceback__)):
+        fn = fr.filename
+        if fn == "<generated>" or os.path.realpath(fn).startswith(repo):
+            return "dagrt", fr.name
+        if os.path.realpath(fn).startswith(home):
+            return "harness", fr.name
+    return "harness", "?"
+
+
 def _alarm_handler(signum, frame):
     raise RunTimeout()
 
@@ -98,8 +112,14 @@ def execute(prop, tape, env):
                 ctx.decoded.get("phase_of_run", ""))
     except RecursionError:
         kind, cls, detail = "harness_error", "RecursionError", traceback.format_exc()[-1500:]
-    except Exception:
-        kind, cls, detail = "harness_error", "exception", traceback.format_exc()[-3000:]
+    except Exception as e:
+        owner, fname = _exception_owner(e)
+        if owner == "dagrt":
+            # raised underneath dagrt code that the harness called with valid input
+            kind, cls, site = "violation", "exception-in-dagrt:" + type(e).__name__, fname
+            detail = "%r\n%s" % (e, "".join(traceback.format_exception(type(e), e, e.__traceback__)[-6:]))
+        else:
+            kind, cls, detail = "harness_error", "exception", traceback.format_exc()[-3000:]
     finally:
         signal.signal(signal.SIGALRM, old)
     dk = hashlib.sha256(repr(ctx.dkey_parts).encode()).hexdigest()[:16]
